@@ -384,8 +384,9 @@ def main(check, tier, argv=()):
     print(f'KNOWN-FINDING: property={check.prop} {fid}: {kf["what"]} (seen {n}x)')
 
   wall = time.time() - t_start
+  skip = set(getattr(check, 'thorough_only_probes', [])) if tier == 'quick' else set()
   zero_probes = sorted(
-      p for p in getattr(check, 'probes', []) if not agg['stats'].get(p))
+      p for p in getattr(check, 'probes', []) if not agg['stats'].get(p) and p not in skip)
   for p in zero_probes:
     print(f'warning: reach probe at zero: {p}')
   coverage = {
